@@ -61,6 +61,9 @@ def parseOperand? (tok : String) : Option Operand :=
   else if tok = "s" then some (.simple true)
   else if tok = "s0" then some (.simple false)
   else if tok = "n" then some (.lit .empty)
+  -- SimpleAttributeOperands that resolve to a property of the event: its value, like a literal
+  else if tok = "sv:sev" then some (.lit (.num .uint16 (.int 7)))
+  else if tok = "sv:src" then some (.lit (.str (some [97, 98, 99])))
   else
     match tok.splitOn ":" with
     | [one] =>
@@ -107,6 +110,224 @@ def showRes : Res → String
   | .err c => "err " ++ codeStr c
   | .panic => "panic"
 
+/-! ### Arm tags: which branches of the model an `eval` / `validate` / `likere` op went through -/
+
+def opStr : FOp → String
+  | .equals => "eq" | .isNull => "isnull" | .gt => "gt" | .lt => "lt" | .gte => "gte" | .lte => "lte"
+  | .like => "like" | .not => "not" | .between => "between" | .inList => "inlist" | .and => "and"
+  | .or => "or" | .cast => "cast" | .inView => "inview" | .ofType => "oftype" | .relatedTo => "relatedto"
+  | .bitAnd => "bitand" | .bitOr => "bitor"
+
+def vClass : V → String
+  | .empty => "null"
+  | .num .boolean _ => "bool"
+  | .num .float _ | .num .double _ => "flt"
+  | .num _ _ => "int"
+  | .str none => "nullstr"
+  | .str (some _) => "str"
+  | .nid _ => "nid"
+
+def resClass : Res → String
+  | .ok .empty => "null"
+  | .ok (.num .boolean (.int 1)) => "true"
+  | .ok (.num .boolean _) => "false"
+  | .ok _ => "value"
+  | .err .operandCountMismatch => "err-count"
+  | .err .operandInvalid => "err-invalid"
+  | .err .operatorUnsupported => "err-unsupported"
+  | .err _ => "err-model"
+  | .panic => "panic"
+
+def triClass : V → String
+  | .num .boolean (.int 1) => "t"
+  | .num .boolean _ => "f"
+  | _ => "n"
+
+def cmpStr : Cmp → String
+  | .lt => "lt" | .eq => "eq" | .gt => "gt" | .ne => "ne" | .error => "error"
+
+/-- tags of the translation `like_to_regex` (one per branch of the character loop) -/
+def likeTrArms : List Nat → Bool → Bool → List String
+  | [], _, esc => if esc then ["lr:trailing-backslash"] else []
+  | c :: rest, inList, esc =>
+    let next : Bool := !esc && c == 92
+    if inList then
+      if c = 93 ∧ esc = false then "lr:list-close" :: likeTrArms rest false next
+      else if c = 93 then "lr:list-escaped-bracket" :: likeTrArms rest true next
+      else if isRegexMeta c then "lr:list-meta" :: likeTrArms rest true next
+      else (if c = 92 then "lr:list-backslash" else "lr:list-other") :: likeTrArms rest true next
+    else if esc then
+      (if regexEscapes c then "lr:esc-special" else if c = 37 ∨ c = 95 then "lr:esc-wildcard" else "lr:esc-plain")
+        :: likeTrArms rest false next
+    else if isRegexMeta c ∨ c = 94 then "lr:meta" :: likeTrArms rest false next
+    else if c = 91 then "lr:list-open" :: likeTrArms rest true next
+    else if c = 37 then "lr:percent" :: likeTrArms rest false next
+    else if c = 95 then "lr:underscore" :: likeTrArms rest false next
+    else (if c = 92 then "lr:backslash" else "lr:plain") :: likeTrArms rest false next
+
+def hasInfix (pat : List Nat) : List Nat → Bool
+  | [] => pat.isEmpty
+  | c :: rest => (pat.isPrefixOf (c :: rest)) || hasInfix pat rest
+
+/-- tags of the regex parse (what the regex crate has to understand) -/
+def likeParseArms (p : List Nat) : List String :=
+  let r := likeToRegex p
+  let feat : List String :=
+    (if hasInfix [63, 63] r then ["lp:lazy-opt"] else []) ++
+    (if hasInfix [46, 42, 63] r then ["lp:lazy-star"] else []) ++
+    (if hasInfix [91, 94] r then ["lp:class-neg"] else []) ++
+    (if hasInfix [91, 93] r ∨ hasInfix [91, 94, 93] r then ["lp:class-leading-bracket"] else []) ++
+    (if hasInfix [45, 93] r then ["lp:class-trailing-dash"] else [])
+  match parseRegex r with
+  | .ok anch items =>
+    [if anch then "lp:anchored" else "lp:unanchored"] ++ feat ++
+      (if items.any (fun it => match it.atom with | .cls _ rs => rs.any (fun (a, b) => a < b) | _ => false)
+        then ["lp:class-range"] else []) ++
+      (if items.any (fun it => it.q = .opt) then ["lp:opt"] else []) ++
+      (if items.any (fun it => it.q = .star ∧ it.atom ≠ .any) then ["lp:star-on-nonany"] else [])
+  | .error => "lp:error" :: feat
+  | .unsupported => ["lp:unsupported"]
+
+/-- the operands an operator fetches, in order (stops after the first that does not evaluate) -/
+def fetched (op : FOp) (os : List Operand) (vo : Operand → Res) : List Operand :=
+  let rec pref : List Operand → List Operand
+    | [] => []
+    | o :: r => match vo o with
+      | .ok _ => o :: pref r
+      | _ => [o]
+  match op with
+  | .isNull | .not => pref (os.take 1)
+  | .between =>
+    match os with
+    | a :: b :: r =>
+      match compareOperands false vo a b with
+      | .inr c => if c = .gt ∨ c = .eq then [a, b] ++ pref (r.take 1) else [a, b]
+      | .inl _ => pref [a, b]
+    | _ => pref os
+  | .inList =>
+    match os with
+    | a :: r =>
+      -- up to and including the first operand that Equals operand[0]
+      let rec upto : List Operand → List Operand
+        | [] => []
+        | o :: t => match compareOperands false vo a o with
+          | .inr .eq => [o]
+          | _ => o :: upto t
+      a :: upto r
+    | [] => []
+  | .inView | .ofType | .relatedTo => []
+  | _ => pref (os.take 2)
+
+def operandArm (elems : List Element) (used : List Nat) : Operand → String
+  | .elem i =>
+    if used.head? = some i then "vo:elem-self"
+    else if used.contains i then "vo:elem-ancestor"
+    else if i = elems.length then "vo:elem-eq-len"
+    else if i = 4294967295 then "vo:elem-u32max"
+    else if i > elems.length then "vo:elem-gt-len"
+    else if i + 1 = elems.length then "vo:elem-last"
+    else "vo:elem-ok"
+  | .lit v => "vo:lit-" ++ vClass v
+  | .attr => "vo:attr"
+  | .simple p => if p then "vo:simple-path" else "vo:simple-nopath"
+  | .undecodable => "vo:undecodable"
+
+def cntArm (e : Element) : String :=
+  "cnt:" ++ opStr e.op ++ ":" ++
+    match e.operands with
+    | none => "none"
+    | some os =>
+      if os.isEmpty then "zero" else if os.length < minOperands e.op then "lt"
+      else if os.length = minOperands e.op then "eq" else "gt"
+
+/-- tags of the evaluation of one element and, recursively, of the elements it fetches -/
+def traceElem : Nat → List Element → List Nat → Element → List String
+  | 0, _, _, _ => []
+  | fuel + 1, elems, used, e =>
+    let res := evalElem false (elems.length + 1) elems used e
+    let here := [cntArm e, "el:" ++ opStr e.op ++ ":" ++ resClass res]
+    match e.operands with
+    | none => here
+    | some os =>
+      if os.isEmpty then here
+      else if os.any (· = .undecodable) then here ++ ["vo:undecodable"]
+      else if os.length < minOperands e.op then here
+      else
+        let vo := valueOfWith false (evalElem false (elems.length + 1) elems) elems used
+        let fs := fetched e.op os vo
+        let opTags := fs.map (operandArm elems used)
+        let vals : List V := fs.filterMap fun o => match vo o with | .ok v => some v | _ => none
+        let sem : List String :=
+          match e.op, vals with
+          | .equals, [a, b] | .gt, [a, b] | .lt, [a, b] | .gte, [a, b] | .lte, [a, b] =>
+            let dir := if a.typeId = b.typeId then "same"
+              else if a.typeId.precedence < b.typeId.precedence then "conv-right" else "conv-left"
+            (match compareValues false a b with
+             | some c => [s!"cmp:{vClass a}-{vClass b}:{cmpStr c}", "cmpdir:" ++ dir ++ (if c = .error then "-error" else "")]
+             | none => [])
+          | .and, [a, b] => [s!"and:{triClass (convertV a (.num .boolean))}-{triClass (convertV b (.num .boolean))}"]
+          | .or, [a, b] => [s!"or:{triClass (convertV a (.num .boolean))}-{triClass (convertV b (.num .boolean))}"]
+          | .not, [a] => [s!"not:{triClass (convertV a (.num .boolean))}"]
+          | .bitAnd, [a, b] | .bitOr, [a, b] =>
+            [s!"bit:{vClass a}-{vClass b}:{resClass res}"]
+          | .like, [a, b] =>
+            (match strOf (convertV a .string), strOf (convertV b .string) with
+             | some _, some p => [s!"like:{vClass a}-{vClass b}"] ++ likeTrArms p false false ++ likeParseArms p
+             | _, _ => [s!"like:nonstring:{vClass a}-{vClass b}"])
+          | .cast, [_, b] =>
+            (match b with
+             | .nid id => [if (dataTypeOfNode id).isSome then "cast:type-known" else if id = 2 then "cast:type-sbyte" else "cast:type-unknown"]
+             | _ => ["cast:not-a-nodeid"])
+          | .between, a :: b :: r =>
+            (match compareValues false a b with
+             | some c => if c = .gt ∨ c = .eq then
+                  (match r with
+                   | d :: _ => (match compareValues false a d with
+                      | some c2 => ["between:low-" ++ cmpStr c ++ "/high-" ++ cmpStr c2]
+                      | none => [])
+                   | [] => [])
+                else ["between:low-" ++ cmpStr c]
+             | none => [])
+          | .inList, a :: r =>
+            let hits := r.map fun v => decide (compareValues false a v = some .eq)
+            [if hits.isEmpty then "inlist:nothing-compared"
+             else if hits.getLast? = some true then (if hits.length = os.length - 1 then "inlist:match-last" else "inlist:match-early")
+             else "inlist:no-match"]
+          | _, _ => []
+        let rec_ := fs.flatMap fun o =>
+          match o with
+          | .elem i =>
+            if used.contains i then []
+            else match elems[i]? with
+              | some e' => traceElem fuel elems (i :: used) e'
+              | none => []
+          | _ => []
+        here ++ opTags ++ sem ++ rec_
+
+def evalArms (elems : List Element) : List String :=
+  match elems with
+  | [] => ["ev:empty-clause"]
+  | e :: _ => ("ev:" ++ resClass (evalClause false elems)) :: traceElem (elems.length + 1) elems [0] e
+
+def validateArms (elems : List Element) : List String :=
+  elems.flatMap fun e =>
+    match e.operands with
+    | none => ["val:no-operands"]
+    | some os =>
+      let cnt := if !supportedOp e.op then "val:unsupported-operator"
+        else if os.length < minOperands e.op then "val:count-lt" else if os.length = minOperands e.op then "val:count-eq"
+        else "val:count-gt"
+      cnt :: os.map fun o => match o with
+        | .elem i => if i + 1 = elems.length then "val:elem-last" else if i = elems.length then "val:elem-eq-len"
+            else if i > elems.length then "val:elem-gt-len" else "val:elem-ok"
+        | .lit _ => "val:lit"
+        | .attr => "val:attr"
+        | .simple _ => "val:simple"
+        | .undecodable => "val:undecodable"
+
+def withArms (r : String) (arms : List String) : String :=
+  if arms.isEmpty then r else r ++ " @@ " ++ ",".intercalate arms.eraseDups
+
 def dstep (elems : List Element) (toks : List String) : List Element × String :=
   match toks with
   | ["reset"] => ([], "ok")
@@ -124,15 +345,27 @@ def dstep (elems : List Element) (toks : List String) : List Element × String :
           (es, s!"ok {es.length}")
         | none => (elems, "bad-op")
   | ["validate"] =>
-    (elems, "ok [" ++ ",".intercalate ((validateClause elems).map codeStr) ++ "]")
-  | ["eval"] => (elems, showRes (evalClause false elems))
+    (elems, withArms ("ok [" ++ ",".intercalate ((validateClause elems).map codeStr) ++ "]")
+      (validateArms elems ++ (validateClause elems).map (fun c => "vs:" ++ codeStr c)))
+  | ["eval"] => (elems, withArms (showRes (evalClause false elems)) (evalArms elems))
+  | ["nullclause"] => (elems, "ok bool:1 none @@ ev:null-clause")
+  | ["evalevent"] =>
+    -- `event_filter::evaluate`: the event passes iff the where clause is `Ok(Boolean(true))`
+    let r := evalClause false elems
+    (elems, withArms (if r = .ok (boolV true) then "ok 1" else "ok 0")
+      [match r with
+       | .ok (.num .boolean (.int 1)) => "ee:pass"
+       | .ok (.num .boolean _) => "ee:reject-false"
+       | .ok .empty => "ee:reject-null"
+       | .ok _ => "ee:reject-value"
+       | _ => "ee:reject-error"])
   | ["likere", p] =>
     match parseStr? p with
     | some bs =>
       let r := likeToRegex bs
       match parseRegex r with
-      | .ok _ _ => (elems, "ok s" ++ bytesToHex r)
-      | .error => (elems, "ok -")
+      | .ok _ _ => (elems, withArms ("ok s" ++ bytesToHex r) (likeTrArms bs false false ++ likeParseArms bs))
+      | .error => (elems, withArms "ok -" (likeTrArms bs false false ++ likeParseArms bs))
       | .unsupported => (elems, "ok unsupported")
     | none => (elems, "bad-op")
   | _ => (elems, "bad-op")
